@@ -294,11 +294,11 @@ class GraphCheck:
         from ..monitors import fault
 
         scratch = ShardAcc(self.PROPERTY)
-        c0 = {k: v for k, v in case.items() if k != "faults"}
+        c0 = {k: v for k, v in case.items() if k not in ("faults", "fault_plan")}
         fctx = core.Ctx(None)
         rng = random.Random(core.sha([c0.get("g") or c0.get("src") or c0.get("origin"), "fault"]))
         sites = fault.inject_around(fctx, rng, lambda: self.run_case(c0, scratch, tier), tries,
-                                    cold_key=(self.PROPERTY, c0.get("cls")))
+                                    cold_key=(self.PROPERTY, c0.get("cls")), record=case)
         acc.counters.update(fctx.counters)
         acc.counters["cases_run_after_injected_faults"] += 1
         for s in sites:
